@@ -421,3 +421,293 @@ Proof.
   intros s. apply legal_pass_is_precise. unfold s. rewrite take_events_graph.
   apply drain_inv. apply graph_symmetric_from_the_start.
 Qed.
+
+(* ---- completeness of a pass: everything that depends on a change is visited ---- *)
+(* well-formedness: whoever is listed as a dependent has a node of its own *)
+Definition has_node (g : list (dep * gnode)) (d : dep) : Prop := g_get g d <> None.
+Definition GWf (g : list (dep * gnode)) : Prop := forall x y, In y (rdeps_of g x) -> has_node g y.
+
+Definition gkeys (g : list (dep * gnode)) : list dep := map fst g.
+Lemma has_node_key g d : has_node g d -> In d (gkeys g).
+Proof.
+  unfold has_node, g_get, gkeys. induction g as [|[k n] r IH]; cbn; [congruence|].
+  destruct (dep_eqb d k) eqn:E; [apply dep_eqb_eq in E; now left|]. intros H. right. now apply IH.
+Qed.
+
+Lemma nodup_snoc {A} (l : list A) x : NoDup l -> ~ In x l -> NoDup (l ++ [x]).
+Proof.
+  induction l as [|y r IH]; intros N H; cbn; [constructor; [intros []|constructor]|].
+  inversion N as [|? ? Hy Nr]; subst. constructor.
+  - rewrite in_app_iff. cbn. intros [H1|[->|[]]]; [contradiction|apply H; now left].
+  - apply IH; [exact Nr|]. intros H1. apply H. now right.
+Qed.
+
+Section Bfs.
+  Variable g : list (dep * gnode).
+  Hypothesis Wf : GWf g.
+
+  Let newf (front seen : list dep) := fold_left (fun acc d => if dep_mem d acc then acc else acc ++ [d]) front seen.
+  Let nextf (front new : list dep) :=
+    flat_map (fun d => match g_get g d with
+                       | Some n => filter (fun x => negb (dep_mem x new)) (g_rdeps n)
+                       | None => [] end) front.
+
+  Lemma newf_in y : forall front seen, In y (newf front seen) <-> In y seen \/ In y front.
+  Proof.
+    unfold newf. induction front as [|d r IH]; intros seen; cbn [fold_left]; [cbn; tauto|].
+    rewrite IH. destruct (dep_mem d seen) eqn:M.
+    - apply dep_mem_In in M. cbn. intuition (subst; auto).
+    - rewrite in_app_iff. cbn. tauto.
+  Qed.
+  Lemma newf_nodup : forall front seen, NoDup seen -> NoDup (newf front seen).
+  Proof.
+    unfold newf. induction front as [|d r IH]; intros seen N; cbn [fold_left]; [exact N|].
+    apply IH. destruct (dep_mem d seen) eqn:M; [exact N|].
+    apply nodup_snoc; [exact N|]. intros H. apply In_dep_mem in H. congruence.
+  Qed.
+  Lemma nextf_in m front new :
+    In m (nextf front new) <-> exists d, In d front /\ In m (rdeps_of g d) /\ dep_mem m new = false.
+  Proof.
+    unfold nextf. rewrite in_flat_map. split.
+    - intros (d & Hd & Hm). exists d. split; [exact Hd|]. unfold rdeps_of. destruct (g_get g d) as [n|]; [|destruct Hm].
+      apply filter_In in Hm. destruct Hm as [Hm Hn]. split; [exact Hm|]. now destruct (dep_mem m new).
+    - intros (d & Hd & Hm & Hn). exists d. split; [exact Hd|]. unfold rdeps_of in Hm. destruct (g_get g d) as [n|]; [|destruct Hm].
+      apply filter_In. split; [exact Hm|]. now rewrite Hn.
+  Qed.
+
+  Lemma reach_from_unfold f front seen :
+    reach_from (S f) g front seen =
+    match nextf front (newf front seen) with [] => newf front seen | _ => reach_from f g (nextf front (newf front seen)) (newf front seen) end.
+  Proof. reflexivity. Qed.
+
+  Definition closed (R : list dep) : Prop := forall x m, In x R -> In m (rdeps_of g x) -> In m R.
+
+  Lemma bfs_closed : forall fuel front seen,
+    NoDup seen -> incl seen (gkeys g) -> incl front (gkeys g) ->
+    (forall x m, In x seen -> In m (rdeps_of g x) -> In m seen \/ In m front) ->
+    (front = [] \/ exists x, In x front /\ ~ In x seen) ->
+    List.length (gkeys g) + 1 <= fuel + List.length seen ->
+    let R := reach_from fuel g front seen in
+    incl seen R /\ incl front R /\ closed R.
+  Proof.
+    induction fuel as [|f IH]; intros front seen Nd Is If Inv Fresh Fuel.
+    - exfalso. pose proof (NoDup_incl_length Nd Is). lia.
+    - cbv zeta. rewrite reach_from_unfold.
+      set (new := newf front seen).
+      assert (Hnew : forall y, In y new <-> In y seen \/ In y front) by (intros; apply newf_in).
+      assert (Nnew : NoDup new) by (now apply newf_nodup).
+      assert (Inew : incl new (gkeys g)) by (intros y Hy; apply Hnew in Hy; destruct Hy; auto).
+      remember (nextf front new) as next eqn:En.
+      assert (Hnext : forall m, In m next <-> exists d, In d front /\ In m (rdeps_of g d) /\ dep_mem m new = false)
+        by (intros; rewrite En; apply nextf_in).
+      clear En.
+      assert (Cnew : forall x m, In x new -> In m (rdeps_of g x) -> In m new \/ In m next).
+      { intros x m Hx Hm. destruct (dep_mem m new) eqn:M; [left; now apply dep_mem_In|].
+        apply Hnew in Hx. destruct Hx as [Hx|Hx].
+        - destruct (Inv x m Hx Hm) as [H|H]; left; apply Hnew; auto.
+        - right. apply Hnext. exists x. auto. }
+      destruct next as [|n0 nx].
+      + split; [intros y Hy; apply Hnew; auto|]. split; [intros y Hy; apply Hnew; auto|].
+        intros x m Hx Hm. destruct (Cnew x m Hx Hm) as [H|[]]. exact H.
+      + set (next := n0 :: nx) in *.
+        assert (Hn0 : exists x, In x next /\ ~ In x new).
+        { assert (In n0 next) as H0 by now left.
+          exists n0. split; [exact H0|]. apply Hnext in H0. destruct H0 as (d & _ & _ & M).
+          intros H. apply In_dep_mem in H. congruence. }
+        assert (Inext : incl next (gkeys g)).
+        { intros m Hm. apply Hnext in Hm. destruct Hm as (d & _ & Hm & _). apply has_node_key. eapply Wf; eauto. }
+        assert (Len : S (List.length seen) <= List.length new).
+        { destruct Fresh as [->|(x & Hx & Hnx)].
+          - exfalso. destruct Hn0 as (x & Hx & _). apply Hnext in Hx. destruct Hx as (d & [] & _).
+          - assert (N2 : NoDup (x :: seen)) by (constructor; assumption).
+            assert (I2 : incl (x :: seen) new) by (intros y [<-|Hy]; apply Hnew; auto).
+            exact (NoDup_incl_length N2 I2). }
+        destruct (IH next new Nnew Inew Inext Cnew (or_intror Hn0)) as (A & B & C); [lia|].
+        split; [intros y Hy; apply A, Hnew; auto|]. split; [intros y Hy; apply A, Hnew; auto|]. exact C.
+  Qed.
+End Bfs.
+
+Lemma closed_rreach g R : closed g R -> forall x y, rreach g x y -> In x R -> In y R.
+Proof. intros C x y H. induction H as [x|x m y Hm _ IH]; [auto|]. intros Hx. apply IH. eapply C; eauto. Qed.
+
+Theorem reach_from_complete g roots : GWf g -> (forall r, In r roots -> has_node g r) ->
+  forall r y, In r roots -> rreach g r y -> In y (reach_from (S (List.length g)) g roots []).
+Proof.
+  intros Wf Hroots r y Hr Hreach.
+  destruct (bfs_closed g Wf (S (List.length g)) roots []) as (_ & B & C).
+  - constructor.
+  - intros x [].
+  - intros x Hx. apply has_node_key. now apply Hroots.
+  - intros x m [].
+  - destruct roots as [|r0 rs]; [now left|right]. exists r0. split; [now left|intros []].
+  - unfold gkeys. rewrite map_length. cbn. lia.
+  - eapply closed_rreach; eauto.
+Qed.
+
+(* nodes are never removed, and an insertion gives the asset a node *)
+Lemma addr_has_node a g d x : has_node g x -> has_node (addr a g d) x.
+Proof.
+  unfold has_node, addr, g_get. intros H. destruct (dep_eq_dec x d) as [->|N]; [rewrite aset_same; discriminate|now rewrite aset_other].
+Qed.
+Lemma fold_addr_has_node a : forall deps g x, has_node g x -> has_node (fold_left (addr a) deps g) x.
+Proof. induction deps as [|d r IH]; intros g x H; cbn [fold_left]; [exact H|]. apply IH. now apply addr_has_node. Qed.
+Lemma delr_has_node a g d x : has_node g x -> has_node (delr a g d) x.
+Proof.
+  unfold has_node, delr, g_upd, g_get. intros H. destruct (assoc dep_eqb d g) as [n|] eqn:E; [|exact H].
+  destruct (dep_eq_dec x d) as [->|N]; [rewrite aset_same; discriminate|now rewrite aset_other].
+Qed.
+Lemma fold_delr_has_node a : forall ds g x, has_node g x -> has_node (fold_left (delr a) ds g) x.
+Proof. induction ds as [|d r IH]; intros g x H; cbn [fold_left]; [exact H|]. apply IH. now apply delr_has_node. Qed.
+
+Lemma graph_insert_has_node g a deps t x : has_node g x -> has_node (graph_insert g a deps t) x.
+Proof.
+  intros H. rewrite graph_insert_unfold. cbv zeta. set (g1 := fold_left (addr a) deps g).
+  assert (H1 : has_node g1 x) by now apply fold_addr_has_node.
+  destruct (g_get g1 a) as [n|] eqn:E.
+  - apply fold_delr_has_node. unfold has_node, g_get in *.
+    destruct (dep_eq_dec x a) as [->|N]; [rewrite aset_same; discriminate|now rewrite aset_other].
+  - unfold has_node, g_get in *. destruct (assoc dep_eqb x g1) as [m|] eqn:F; [|congruence].
+    rewrite (aapp_some _ _ _ _ F). discriminate.
+Qed.
+Lemma graph_insert_has_self g a deps t : has_node (graph_insert g a deps t) a.
+Proof.
+  rewrite graph_insert_unfold. cbv zeta. set (g1 := fold_left (addr a) deps g).
+  destruct (g_get g1 a) as [n|] eqn:E.
+  - apply fold_delr_has_node. unfold has_node, g_get. rewrite aset_same. discriminate.
+  - unfold has_node, g_get in *. rewrite (aapp_none _ _ _ E). cbn. rewrite dep_eqb_refl. discriminate.
+Qed.
+
+Theorem graph_insert_wf g a deps t : GWf g -> GWf (graph_insert g a deps t).
+Proof.
+  intros W x y Hy. apply In_dep_mem in Hy. rewrite graph_insert_rdeps in Hy.
+  destruct (dep_eqb y a) eqn:Y.
+  - apply dep_eqb_eq in Y. subst y. apply graph_insert_has_self.
+  - apply dep_mem_In in Hy. apply graph_insert_has_node. eapply W; eauto.
+Qed.
+Lemma gwf_nil : GWf []. Proof. intros x y []. Qed.
+
+(* both invariants together, through every operation *)
+Definition GOk (g : list (dep * gnode)) : Prop := GInv g /\ GWf g.
+
+Lemma process_msg_ok s m : GOk (graph s) -> GOk (graph (process_msg s m)).
+Proof. intros [I W]. destruct m as [k deps|]; cbn; [split; [now apply graph_insert_inv|now apply graph_insert_wf]|split; auto]. Qed.
+Lemma fold_process_ok : forall l s, GOk (graph s) -> GOk (graph (fold_left process_msg l s)).
+Proof. induction l as [|m r IH]; intros s H; cbn [fold_left]; [exact H|]. apply IH, process_msg_ok, H. Qed.
+Lemma drain_ok s : GOk (graph s) -> GOk (graph (drain s)).
+Proof. intros H. unfold drain. cbn. now apply fold_process_ok. Qed.
+
+Lemma reload_one_ok fuel s k : GOk (graph s) -> GOk (graph (fst (reload_one fuel s k))).
+Proof.
+  intros I. unfold reload_one.
+  destruct (g_get (graph s) (DepAsset k)) as [n|]; [|exact I].
+  destruct (g_typ n) as [t|]; [|exact I].
+  destruct (cache_get s k) as [old|]; [|exact I].
+  destruct (en_dyn old); cbn [negb]; [|exact I].
+  pose proof (load_wrapped_quiet _ _ (proj1 (load_f_quiet fuel)) (proj2 (load_f_quiet fuel))
+                (rec_push s (Some [])) t (snd k)) as Q.
+  destruct (load_wrapped (load_entry_f fuel) (load_owned_f fuel) (rec_push s (Some [])) t (snd k)) as [[s1 tr] r].
+  cbn [fst] in Q. pose proof (quiet_push_pop s (Some []) s1 Q) as P.
+  destruct (rec_pop s1) as [s2 deps]. cbn [fst] in P.
+  assert (G : graph s2 = graph s) by apply (q_graph _ _ P).
+  destruct r as [[v tok]|e| |]; cbn [fst]; try (rewrite G; exact I).
+  cbn [graph set_graph]. rewrite G. destruct I as [I W]. split; [now apply graph_insert_inv|now apply graph_insert_wf].
+Qed.
+Lemma reload_all_ok fuel : forall order s tr, GOk (graph s) -> GOk (graph (fst (reload_all fuel s order tr))).
+Proof.
+  induction order as [|k r IH]; intros s tr I; cbn [reload_all]; [exact I|].
+  pose proof (reload_one_ok fuel s k I) as I1. destruct (reload_one fuel s k) as [s1 tr1]. now apply IH.
+Qed.
+Lemma run_pass_ok fuel s order : GOk (graph s) -> GOk (graph (fst (fst (run_pass fuel s order)))).
+Proof.
+  intros I. unfold run_pass.
+  pose proof (reload_all_ok fuel order (set_to_reload s []) [] I) as R.
+  destruct (reload_all fuel (set_to_reload s []) order []) as [s1 tr]. exact R.
+Qed.
+
+Theorem step_keeps_graph_ok fuel s o : GOk (graph s) -> GOk (graph (fst (fst (step fuel s o)))).
+Proof.
+  intros I. destruct o; cbn [step].
+  - pose proof (q_graph _ _ (proj1 (load_f_quiet fuel) s t id)) as G.
+    destruct (load_entry_f fuel s t id) as [[s1 tr] r]. cbn [fst] in *. now rewrite G.
+  - pose proof (q_graph _ _ (proj2 (load_f_quiet fuel) s t id)) as G.
+    destruct (load_owned_f fuel s t id) as [[s1 tr] r]. cbn [fst] in *. now rewrite G.
+  - pose proof (q_graph _ _ (quiet_get_cached_rec s t id)) as G.
+    destruct (get_cached_rec s t id) as [s1 o]. cbn [fst] in *. now rewrite G.
+  - pose proof (q_graph _ _ (quiet_get_cached_rec (fst (bump_tok s)) t id)) as G.
+    destruct (bump_tok s) as [s1 tok] eqn:B. cbn [fst] in G.
+    assert (G1 : graph s1 = graph s) by (unfold bump_tok in B; inversion B; reflexivity).
+    destruct (get_cached_rec s1 t id) as [s2 o]. cbn [fst] in G.
+    destruct o as [e|]; cbn [fst]; [now rewrite G, G1|].
+    pose proof (q_graph _ _ (quiet_cache_insert s2 (t, id) (mark_goi (mk_entry s2 t (VInt z "insert") tok)))) as G3.
+    destruct (cache_insert s2 (t, id) (mark_goi (mk_entry s2 t (VInt z "insert") tok))) as [[s3 e'] d].
+    cbn [fst] in *. now rewrite G3, G, G1.
+  - exact I.
+  - destruct (cache_get s (t, id)); exact I.
+  - destruct (cache_get s (t, id)); exact I.
+  - destruct (has_reloader s); exact I.
+  - exact I. - exact I. - exact I. - exact I. - exact I. - exact I. - exact I.
+  - destruct (has_reloader s); [|exact I].
+    assert (I1 : GOk (graph (take_events (drain s) es))) by (rewrite take_events_graph; now apply drain_ok).
+    destruct (static_mode (take_events (drain s) es)); [|exact I1].
+    pose proof (run_pass_ok fuel _ order I1) as R.
+    destruct (run_pass fuel (take_events (drain s) es) order) as [[s2 ok] tr]. exact R.
+  - destruct (has_reloader s); [|exact I].
+    destruct (static_mode s); [now apply drain_ok|].
+    pose proof (run_pass_ok fuel _ order (drain_ok s I)) as R.
+    destruct (run_pass fuel (drain s) order) as [[s2 ok] tr]. exact R.
+  - destruct (has_reloader s && negb (static_mode s)); [|exact I].
+    pose proof (run_pass_ok fuel (set_static (drain s) true) order (drain_ok s I)) as R.
+    destruct (run_pass fuel (set_static (drain s) true) order) as [[s2 ok] tr]. exact R.
+  - exact I.
+  - destruct (cache_get s (t, id)) as [e|]; [|exact I]. destruct (en_dyn e); exact I.
+  - destruct (cache_get s (t, id)); exact I.
+  - destruct (assoc N.eqb w (watchers s)) as [[k last]|]; [|exact I]. destruct (cache_get s k); exact I.
+Qed.
+
+Theorem graph_ok_in_every_history : forall ops s, GOk (graph s) -> GOk (graph (fst (run s ops))).
+Proof.
+  induction ops as [|o r IH]; intros s I; cbn [run]; [exact I|].
+  pose proof (step_keeps_graph_ok default_fuel s o I) as I1.
+  destruct (step default_fuel s o) as [[s1 x] tr]. cbn [fst] in I1.
+  specialize (IH s1 I1). destruct (run s1 r) as [s2 rest]. exact IH.
+Qed.
+Corollary graph_ok_from_the_start reloader ops : GOk (graph (fst (run (init_st reloader) ops))).
+Proof. apply graph_ok_in_every_history. split; [apply ginv_nil|apply gwf_nil]. Qed.
+
+(* the other direction of the invariant *)
+Lemma tdep_rreach g x y : GInv g -> tdep g y x -> rreach g x y.
+Proof.
+  intros I H. induction H as [x|a m d _ IH Hd]; [constructor|].
+  (* a depends on m (IH: rreach m a), d is a dependency of m: m is among the dependents of d *)
+  eapply rr_step; [|exact IH]. apply dep_mem_In. now rewrite (I m d).
+Qed.
+
+(* every asset that depends, transitively, on an entry that was reported changed and that the graph
+   knows is in the set the pass must visit *)
+Theorem pass_set_complete s k r : GOk (graph s) ->
+  In r (to_reload s) -> has_node (graph s) r -> tdep (graph s) (DepAsset k) r -> In k (pass_set s).
+Proof.
+  intros [I W] Hr Hn T. unfold pass_set. apply in_flat_map. exists (DepAsset k). split; [|now left].
+  set (roots := filter (fun d => match g_get (graph s) d with Some _ => true | None => false end) (to_reload s)).
+  apply (reach_from_complete (graph s) roots W) with (r := r).
+  - intros x Hx. apply filter_In in Hx. destruct Hx as [_ Hx]. unfold has_node. destruct (g_get (graph s) x); [discriminate|discriminate].
+  - apply filter_In. split; [exact Hr|]. unfold has_node in Hn. destruct (g_get (graph s) r); [reflexivity|congruence].
+  - now apply tdep_rreach.
+Qed.
+
+(* hence of every pass the model accepts: nothing that depends on a change is skipped *)
+Theorem legal_pass_is_complete s order k r : GOk (graph s) ->
+  legal_order s order = true ->
+  In r (to_reload s) -> has_node (graph s) r -> tdep (graph s) (DepAsset k) r -> In k order.
+Proof.
+  intros Ok L Hr Hn T. pose proof (pass_set_complete s k r Ok Hr Hn T) as P.
+  unfold legal_order in L. apply andb_true_iff in L. destruct L as [L _].
+  apply andb_true_iff in L. destruct L as [_ L]. unfold same_keys in L. apply andb_true_iff in L. destruct L as [_ L].
+  rewrite forallb_forall in L. specialize (L k P). now apply key_mem_In.
+Qed.
+
+Theorem hot_reload_is_complete reloader ops order k r :
+  let s := drain (fst (run (init_st reloader) ops)) in
+  legal_order s order = true ->
+  In r (to_reload s) -> has_node (graph s) r -> tdep (graph s) (DepAsset k) r -> In k order.
+Proof. intros s. apply legal_pass_is_complete. apply drain_ok. apply graph_ok_from_the_start. Qed.
